@@ -643,9 +643,24 @@ impl<'a, F: EvalComptimeFn> InferenceCtx<'a, F> {
                     // will cause lots of incorrect circular definition errors.
                     // It seems to be because the cyclic globals need to be run
                     // before the cyclic lambdas are run.
+                    // Among the globals, the ones that are functions go first: their signature
+                    // only needs their header, while a value global that reaches one of them
+                    // (`K :: comptime { r(3) }` with a recursive `r`) needs that signature, and
+                    // would otherwise depend on whether it was written before or after `r`.
+                    let is_function_global = |global: &ConcreteGlobalLoc| {
+                        let naive = global.to_naive();
+                        !self.world_bodies.global_is_extern(naive)
+                            && matches!(
+                                self.world_bodies[naive.file()]
+                                    [self.world_bodies.global_body(naive)],
+                                hir::Expr::Lambda(_)
+                            )
+                    };
                     cyclic.sort_by(|left, right| match (left, right) {
                         (ConcreteLoc::Global(l_global), ConcreteLoc::Global(r_global)) => {
-                            l_global.cmp(r_global)
+                            is_function_global(r_global)
+                                .cmp(&is_function_global(l_global))
+                                .then(l_global.cmp(r_global))
                         }
                         (ConcreteLoc::Lambda(l_lambda), ConcreteLoc::Lambda(r_lambda)) => {
                             l_lambda.cmp(r_lambda)
